@@ -220,6 +220,7 @@ typedef struct pv_world {
     uint64_t total[PV_EV_NKINDS];   /* cumulative */
     uint8_t rand_delivered[256]; size_t rand_total;      /* bytes delivered in this call */
     int alloc_failed_in_call;
+    uint64_t aliased_norm_calls;    /* NFC/NFKD called with overlapping input and output */
     /* ledger */
     pv_block live[PV_MAXLIVE]; int nlive;
     void* freed_ring[64]; int freed_pos;
@@ -259,6 +260,13 @@ void pv_api_store(const polyseed_data* s, uint8_t* storage);
 polyseed_status pv_api_load(const uint8_t* storage, polyseed_data** out);
 void pv_api_crypt(polyseed_data* s, const char* password);
 int pv_api_is_encrypted(const polyseed_data* s);
+
+/* monitor of the library's own static storage (ranges of the lib_*.o objects taken from the link map, PV_LINKMAP):
+ * outside polyseed_inject / polyseed_enable_features nothing in it may change (C13: "library state is just ...") */
+int pv_static_init(void);                               /* number of ranges found, 0 if no map */
+uint64_t pv_static_digest(void);
+const char* pv_static_diff(void);                       /* after a digest mismatch: which object / offset changed (static text) */
+void pv_static_snapshot(void);
 
 /* ------------------------------------------------------------------ observation helpers */
 typedef struct pv_obs {
